@@ -63,6 +63,12 @@ func genC14(seed uint64, tier string) any {
 	for i := 0; i < np; i++ {
 		p.Procs = append(p.Procs, ops())
 	}
+	if h := simnet.H(seed, "c14fin"); h%3 == 0 && len(p.Procs) > 0 {
+		// the runner's last report: a final state, after which the other writers still have updates to make
+		pi := int(h/3) % len(p.Procs)
+		at := int(h/64) % (len(p.Procs[pi]) + 1)
+		p.Procs[pi] = append(p.Procs[pi][:at:at], append([]string{"fin"}, p.Procs[pi][at:]...)...)
+	}
 	for i := 0; i < nd; i++ {
 		dops := ops()
 		for j := range dops {
@@ -162,6 +168,8 @@ var c14Model = porcupine.Model{
 			n := st.clone()
 			n.detail = in.Op
 			return out.Err == "", n
+		case "fin": // touches none of the modelled fields
+			return out.Err == "", st
 		default: // load
 			if out.Err != "" {
 				return false, st
@@ -254,6 +262,7 @@ func runStatusHistory(t *testing.T, p *C14Plan, prop string, res *simnet.Result)
 		l.Unlock()
 		return true
 	}
+	sched.KernelQueue = os.Getenv("VERIF_NO_REALTIME") == ""
 	verifhook.SetStepHandler(sched.Step)
 	defer verifhook.SetStepHandler(nil)
 	var hmu sync.Mutex
@@ -300,6 +309,10 @@ func runStatusHistory(t *testing.T, p *C14Plan, prop string, res *simnet.Result)
 				case "set1", "set2":
 					// an absolute assignment, repeated verbatim (the runner's periodic "Running" report)
 					if err := sfd.UpdateFullStatus(path, func(s *workceptor.StatusFileData) { s.Detail = op }); err != nil {
+						out.Err = err.Error()
+					}
+				case "fin":
+					if err := sfd.UpdateFullStatus(path, func(s *workceptor.StatusFileData) { s.State = workceptor.WorkStateSucceeded }); err != nil {
 						out.Err = err.Error()
 					}
 				default:
